@@ -892,3 +892,37 @@ brk("C11", "Gibbs free propagator in real time", "K4", _sub(
     TE, "            - 1j * self._dt, 0, 0, 0)", "            self._dt, 0, 0, 0)"))
 brk("C11", "Gibbs slice from the original correlations' temperature argument", "K4", _sub(
     TE, "        self._dt = self._parameters.time_step_length(self._temperature)", "        self._dt = self._parameters.time_step_length(1.0)"))
+
+_EXEC_NAME_BOUND = _sub(
+    TEBDB, '''            if self._parallel == "multiprocess":
+                with concurrent.futures.ProcessPoolExecutor() as executor:
+                    output_datas = executor.map(apply_nn_gate, input_datas)
+            elif self._parallel == "multithread":
+                with concurrent.futures.ThreadPoolExecutor() as executor:
+                    output_datas = executor.map(apply_nn_gate, input_datas)
+            else:
+                raise NotImplementedError("Parallelisation method " \\
+                    + f"'{self._parallel}' is not implementedds!")
+''', '''            if self._parallel == "multiprocess":
+                executor = concurrent.futures.ProcessPoolExecutor()
+            elif self._parallel == "multithread":
+                executor = concurrent.futures.ThreadPoolExecutor()
+            else:
+                raise NotImplementedError("Parallelisation method " \\
+                    + f"'{self._parallel}' is not implementedds!")
+            with executor:
+                output_datas = list(executor.map(apply_nn_gate, input_datas))
+''')
+ok("C10", "executor bound to a name, entered with `with executor:`, results via map", _EXEC_NAME_BOUND)
+ok("C19", "executor bound to a name, entered with `with executor:`", _EXEC_NAME_BOUND)
+_GOOD_MEMO = _multi(
+    _sub(CT, "        self._control_times = {'pre':np.array([]), 'post':np.array([])}\n        super().__init__(name, description)",
+         "        self._control_times = {'pre':np.array([]), 'post':np.array([])}\n        self._control_steps = {}\n        super().__init__(name, description)"),
+    _sub(CT, "                self._control_times[pre_post] = times\n", "                self._control_times[pre_post] = times\n                self._control_steps.clear()\n"),
+    _sub(CT, "    def get_controls(\n            self,\n            step: int,",
+         "    def _get_control_steps(self, pre_post, dt, start_time):\n        key = (pre_post, dt, start_time)\n        cached = self._control_steps.get(key)\n        if cached is None:\n            times = self._control_times[pre_post]\n            cached = np.round((times - start_time) / dt)\n            self._control_steps[key] = cached\n        return cached\n\n    def get_controls(\n            self,\n            step: int,"),
+    _sub(CT, "        a = np.round((self._control_times['pre'] - start_time) / dt)", "        a = self._get_control_steps('pre', dt, start_time)"),
+    _sub(CT, "        a = np.round((self._control_times['post'] - start_time) / dt)", "        a = self._get_control_steps('post', dt, start_time)"))
+ok("C18", "float-time step cache keyed by (group, dt, start_time)", _GOOD_MEMO)
+ok("C20", "float-time step cache keyed by (group, dt, start_time)", _GOOD_MEMO)
+ok("C15", "float-time step cache keyed by (group, dt, start_time)", _GOOD_MEMO)
